@@ -152,6 +152,28 @@ class FuncV(Val):
         return "FuncV(%s,%s)" % (self.kind, {k: v for k, v in self.data.items() if k in ("name", "qual")})
 
 
+class StrCat(Val):
+    """A str built by concatenation / join, kept as a structured term: list of parts, each a
+    Python str (literal text) or a Val (a piece of text produced elsewhere).  Used where the
+    *content* of generated text matters (C20); proofs treat it through a spec-level reading."""
+    __slots__ = ("parts", "_term")
+
+    def __init__(self, parts):
+        flat = []
+        for p in parts:
+            if isinstance(p, StrCat):
+                flat += p.parts
+            elif isinstance(p, Conc) and isinstance(p.py, str):
+                flat.append(p.py)
+            else:
+                flat.append(p)
+        self.parts = flat
+        self._term = None
+
+    def __repr__(self):
+        return "StrCat(%r)" % (self.parts,)
+
+
 class ModV(Val):
     """A module object (dt, inspect, operator, ...) by name."""
     __slots__ = ("name",)
